@@ -16,6 +16,7 @@ require (
 	github.com/ory/keto v0.0.0
 	github.com/ory/keto/proto v0.13.0-alpha.0
 	github.com/ory/x v0.0.708
+	github.com/pkg/errors v0.9.1
 	github.com/sirupsen/logrus v1.9.3
 	google.golang.org/grpc v1.71.1
 )
@@ -120,7 +121,6 @@ require (
 	github.com/ory/herodot v0.10.3-0.20250318104651-3179543efba8 // indirect
 	github.com/ory/jsonschema/v3 v3.0.9-0.20250317235931-280c5fc7bf0e // indirect
 	github.com/pelletier/go-toml v1.9.5 // indirect
-	github.com/pkg/errors v0.9.1 // indirect
 	github.com/pmezard/go-difflib v1.0.1-0.20181226105442-5d4384ee4fb2 // indirect
 	github.com/prometheus/client_golang v1.21.1 // indirect
 	github.com/prometheus/client_model v0.6.1 // indirect
